@@ -69,6 +69,12 @@ CLAIMED['C15'] = dict(
     text='Decides the no-shared-mutable-state clause completely for the current tree: every write site of all 278 C functions and every store of all 138 asm kernels is traced to its provenance root, and none is a library-owned global (function-local statics included), a RIP-relative/absolute address, TLS, or a pointer loaded from stream->hufftables (the only escaping globals); the 42 dispatch resolvers each perform exactly one 8-byte store of a CPUID/XGETBV-determined library function address into their own slot, which is 8-byte aligned in the shared object linked from the current tree, restore every register, and mbinit falls through into the interface stub; external callees are a fixed reentrant libc set (no allocation, I/O, time, locale, getenv), no inline asm, no indirect calls; isal_deflate_reset / isal_inflate_reset assign every byte the matching init assigns except the documented user fields. The obligation set is finite and enumerated completely (proof level for these clauses). NOT decided: independence from prior contents of level_buf / internal arrays / output buffer.',
     note='Trusts clang IR + sroa, tools/llir.py (unknown provenance is never assumed local), nasm/objdump decoding, ASMFLOW and FACTS interpreters. Object-level .data alignment of the multibinary units is 4; slot alignment is checked on the link layout.')
 
+CLAIMED['C19'] = dict(
+    category='other', design_ref='DESIGN.md section 3, C19',
+    technique='static analysis: dataflow over the linked LLVM IR - edge-removal reachability (size test lies on every path to a write), value-dependency matching of header fields to endian helpers, interprocedural return-value sets; constant probes',
+    text='Partial by design: (1) in isal_write_gzip_header and isal_write_zlib_header the successful edge of the avail_out size test lies on every path to any store through next_out and any update of next_out/avail_out/total_out (helper calls included through write summaries), so the failing case leaves the stream untouched; (2) every multi-byte header field (gzip MTIME, XLEN, header CRC16; zlib DICTID) is matched through value dependencies to the endian helper that writes and reads it and must have the byte order of RFC 1952 / RFC 1950; the helpers\' own meaning is established from optimised IR (one bswap of the right width or none); (3) flag bits, method, lengths, shifts equal the RFCs and the FCHECK mod-31 arithmetic is present in producer and reader; (4) the readers return only documented status codes. NOT decided: resumable parsing over arbitrary splits, overflow resumption, exact stop position, read bounds on arbitrary bytes.',
+    note='Trusts clang IR + sroa, tools/llir.py provenance/dependency analysis, the RFC field table in props/c19.py. The in-tree test only round-trips writer to reader.')
+
 NOT_APPLICABLE = {
     'C07': 'quantifies over call histories and buffer schedules; resumption correctness depends on run-time counts carried in state, no structural clause beyond the state-enum mirror already checked under C01',
     'C09': 'algebraic property of run-time matrices (invertibility, products over GF(2^8)); nothing in the shape of the code decides it, and loop summarisation over symbolic (m,k) is out of reach of the analyses used',
